@@ -1,6 +1,6 @@
 """C03 foreign files and directories are never modified, moved or deleted."""
 from .hist import run_history, U_C
-from .skeletons import U7
+from .skeletons import U7, UN3
 
 LEVEL = 'model_checking'
 BUDGET_S = {'quick': 150, 'thorough': 1500}
@@ -30,6 +30,9 @@ def families(tier):
         {'name': 'A4', 'params': {'hist': 'BMB', 'kinds': ['is_dir'], 'roles': ['o'], 'targets': ['o/d/g'],
                                   'modes': ['ok', 'raise_after'], 'mut_paths': mp}, 'weight': 2},
     ]
+    q.append({'name': 'S1', 'params': {'hist': 'F'}, 'weight': 1})
+    q.append({'name': 'S1', 'params': {'hist': 'BMF', 'mut_paths': ['o/d', 'o/d/g', 'o/z']}, 'weight': 2})
+    q.append({'name': 'N3', 'params': {'hist': 'BBC', 'universe': UN3, 'kinds': ['is_dir'], 'roles': ['o']}, 'weight': 3})
     if tier == 'quick':
         return q
     return q + [
